@@ -418,6 +418,10 @@ def split_programs(dev):
         h["ops"] = [
             {"op": "distribute", "src": T, "col": 0, "dst": P, "dw": L([(0, 0), (1, 0), (0, 1)]), "vol": max(1, M // 3), "md": md, "label": "md"}
             for md in (1, 2, 3, 4, 12)
+        ] + [
+            # volumes just above max_volume / k: one dispense less fits than a rounded ratio suggests
+            {"op": "distribute", "src": T, "col": 0, "dst": P, "dw": L([(0, 0), (1, 0)]), "vol": M // kk + 1, "md": kk + 3, "label": f"just above 1/{kk}"}
+            for kk in (2, 3, 4) if M // kk + 1 <= M
         ] + [{"op": "distribute", "src": T, "col": 1, "dst": P, "dw": L([(0, 2)]), "vol": M, "md": 5, "label": "full"},
              {"op": "distribute", "src": T, "col": 1, "dst": P, "dw": L([(1, 2)]), "vol": M + 1, "md": 1, "label": "too big"}]
         progs.append(h)
